@@ -178,7 +178,13 @@ enum Fate {
     Delay(u64),
 }
 
+thread_local! {
+    /// Recovery phase: the network has calmed down (everything passes).
+    static CALM: std::cell::Cell<bool> = const { std::cell::Cell::new(false) };
+}
+
 fn draw_fate(mode: Mode, stream: bool) -> Fate {
+    let mode = if CALM.with(|c| c.get()) { Mode::Quiet } else { mode };
     match mode {
         Mode::Quiet => Fate::Pass,
         Mode::CutsOnly => match sim::draw("mb.fate", 24) {
@@ -852,6 +858,74 @@ async fn run(prop: &'static str, _tier: Tier) {
     }
     if !check_queries(prop, &led, mode) {
         return;
+    }
+
+    // ---- recovery: the network calms down (everything passes unchanged from
+    // now on), two minutes go by - longer than every timeout, idle timer and
+    // back-off -, and the callers' transport is asked one or two more
+    // questions: whatever loss, cuts and corruption went before, these
+    // exchanges succeed. (Not over the bare stream connection, which has no
+    // way back once it is broken or has closed itself.)
+    CALM.with(|c| c.set(false));
+    if mode != Mode::Quiet && kind != Kind::Stream && sim::chance("recovery_phase", 1, 2) {
+        sim::stat("probe.recovery_phase");
+        CALM.with(|c| c.set(true));
+        ev!("the network calms down");
+        sim::sleep_ms(120_000).await;
+        let n = 1 + sim::draw("recovery.n", 2) as u32;
+        let conn2 = conn.clone();
+        let led2 = led.clone();
+        let first_k = k;
+        let h = exec.spawn("recovery".to_string(), async move {
+            let mut failed: Option<(String, String)> = None;
+            for k in first_k..first_k + n {
+                let qname = format!("q{}-n1-s20.e2e.", k);
+                let mut mb = MessageBuilder::new_vec();
+                mb.header_mut().set_rd(true);
+                let mut q = mb.question();
+                q.push((Name::<Vec<u8>>::from_chars(qname.chars()).unwrap(), Rtype::TXT)).unwrap();
+                let req = RequestMessage::new(q.into_message()).expect("request");
+                ev!("caller asks {} (recovery)", qname);
+                let mut r = conn2.send_request(req);
+                match r.get_response().await {
+                    Ok(m) => led2.borrow_mut().results.push((qname.to_ascii_lowercase(), Outcome::Ok(m.as_slice().to_vec()))),
+                    Err(e) => {
+                        failed = Some((qname, format!("{:?}", e)));
+                        break;
+                    }
+                }
+                sim::sync_clock();
+                sim::sleep_ms(2000).await;
+            }
+            failed
+        });
+        let ex3 = exec.clone();
+        let rec = async move {
+            tokio::select! {
+                biased;
+                r = h.join() => r,
+                _ = ex3.run() => None,
+            }
+        };
+        match tokio::time::timeout(Duration::from_secs(1800), rec).await {
+            Err(_) => {
+                sim::violation(prop, "completion", "query-never-completed".to_string(), "a query of the recovery phase did not complete within 1800 virtual seconds".to_string());
+                return;
+            }
+            Ok(Some(Some((qname, e)))) => {
+                sim::violation(prop, "honest", format!("exchange-failed-long-after-the-network-calmed-down/{}", e.split(['(', ' ']).next().unwrap_or("")), format!("{}: {} although the network had delivered everything unchanged for two minutes", qname, e));
+                return;
+            }
+            Ok(_) => {}
+        }
+        sim::sync_clock();
+        CALM.with(|c| c.set(false));
+        if sim::over_cap() || sim::stopped() {
+            return;
+        }
+        if !check_queries(prop, &led, mode) {
+            return;
+        }
     }
 
     // ---- phase 2: one zone transfer over its own stream connection
